@@ -112,8 +112,16 @@ fn plans(prop: &str, tier: &str) -> Vec<Plan> {
             for (ext, buf) in [(false, false), (true, false), (false, true), (true, true)] {
                 for (ml, muts, uns) in [("none", vec![], false), ("full-unsafe@0.5", FULL.to_vec(), true), ("rev-unsafe@0.5", rev_full(), true)] {
                     let cfg = Cfg::new(p).flags(ext, buf).muts(&muts, 0.5, uns);
-                    let d = if quick { 2 } else { 3 };
-                    let mut pl = mk(&format!("P{p}/ext={ext}/buf={buf}/{ml}"), &cfg, d, 1, if muts.is_empty() { 0 } else { 1 });
+                    // without mutators the flags only gate can_emit: default answers suffice; with the unsafe lists every
+                    // gate and one value deviation per step are explored at a smaller depth
+                    let (d, b) = match (quick, muts.is_empty()) {
+                        (true, true) => (3, 0),
+                        (true, false) => (1, 1),
+                        (false, true) => (4, 0),
+                        (false, false) => (2, 1),
+                    };
+                    let mut pl = mk(&format!("P{p}/ext={ext}/buf={buf}/{ml}"), &cfg, d, 1, b);
+                    pl.opts.fringe_consumers = false;
                     pl.opts.ref_in_key = false;
                     v.push(pl);
                 }
@@ -172,6 +180,7 @@ fn plans(prop: &str, tier: &str) -> Vec<Plan> {
 pub fn check(prop: &str, tier: &str) -> i32 {
     let sprop = static_prop(prop);
     let mut rep = Report::new(sprop, tier);
+    rep.model_bound = true;
     let mon = monitor_for(prop);
     let guard = |ctx: &RunCtx| -> Vec<Finding> { mon(ctx) };
     let mut all_outputs: Vec<Vec<u8>> = vec![];
@@ -291,6 +300,16 @@ pub fn replay(path: &str) -> i32 {
         return 2;
     };
     let v: serde_json::Value = serde_json::from_str(&s).unwrap_or_default();
+    if matches!(v["kind"].as_str(), Some("mutator") | Some("adapter") | Some("typeconfusion")) {
+        println!("replaying {} [{}]: {}", v["property"].as_str().unwrap_or(""), v["class"].as_str().unwrap_or(""), v["message"].as_str().unwrap_or(""));
+        return crate::units::replay(&v);
+    }
+    if matches!(v["kind"].as_str(), Some("cli") | Some("action") | Some("python") | Some("digest") | Some("sweep") | Some("pair") | Some("schedule") | Some("hash-order")) {
+        println!("replaying {} [{}]: {}", v["property"].as_str().unwrap_or(""), v["class"].as_str().unwrap_or(""), v["message"].as_str().unwrap_or(""));
+        println!("this finding involves a front end / several processes / a schedule; its inputs are:\n{}", serde_json::to_string_pretty(&v).unwrap_or_default());
+        println!("re-run: bin/check {} quick", v["property"].as_str().unwrap_or("Cxx"));
+        return 1;
+    }
     if v["kind"].as_str() == Some("leak-history") {
         return crate::leak::replay_history(&v);
     }
